@@ -357,6 +357,20 @@ def gen_random(rng, force_suspect=False):
     return mk_spec(lcols, lrows, rcols, rrows, lsp, rsp, mode, lidx, list(range(nk)), **kw)
 
 
+def gen_more_shared(rng):
+    """two or three non-key columns with the same name on both sides (v, u, t): each is combined by `mode` on its own"""
+    name, nk, lk, rk, lsp, rsp = rng.choice([sp for sp in SPELLINGS if sp[0] not in ('computed-left',)])
+    pool = rng.sample(UNIVERSE[:6], rng.choice([2, 3]))
+    extra = rng.choice([['u'], ['u', 't']])
+    n, m = rng.choice([1, 2, 3, 4]), rng.choice([1, 2, 3, 4])
+    lrows = [[rng.choice(pool) for _ in range(nk)] + [rng.choice([10, 20, None])] + [rng.choice(['p', 'q']) for _ in extra] + [i] for i in range(n)]
+    rrows = [[rng.choice(pool) for _ in range(nk)] + [rng.choice([10, 20, None])] + [rng.choice(['p', 'r']) for _ in extra] + [i] for i in range(m)]
+    kw = dict(spell=name)
+    if nk == 0:
+        kw['nokey'] = True
+    return mk_spec(lk + ['v'] + extra + ['li'], lrows, rk + ['v'] + extra + ['ri'], rrows, lsp, rsp, rng.choice(MODES), list(range(nk)), list(range(nk)), **kw)
+
+
 def gen_natural(rng):
     """lcols = rcols = None: the key is every shared column; x * y and x / y"""
     shared = rng.choice([[], ['a'], ['a', 'b']])
@@ -509,7 +523,7 @@ def run(tier, seed):
                   '(5) typed-order keys - strings of different lengths {"", a, b, ab, abc}, numbers {-2.5, -1, 0, -0.0, 1, 1.5, 2, 10}, three datetimes, bools - mixed with keys of '
                   'another kind (None, NaN, a value of another type) that force the Cmp fallback of sort() on that side: every pair of a 2-row table with two distinct keys of one type '
                   '(3 core values per type) and a 2-row table with one such key and one key of another kind, both row orders and both side assignments, plus all homogeneous pairs; '
-                  '%d seeded pairs with 2-4 rows, 1-2 key columns, the odd key on neither / one / both sides, over 13 spellings x modes; '
+                  '%d seeded pairs with 2-4 rows, 1-2 key columns, the odd key on neither / one / both sides, over 13 spellings x modes; seeded pairs with two or three same-named non-key columns (v, u, t) x modes; '
                   '(6) %d fixed pairs with +-inf keys and %d with a bool next to numbers, reported under the key classes inf-keys / bool-number-keys. '
                   'A case is non-trivial when both tables have rows; distinct by (tables, spellings, mode).'
                   % (n_random, n_natural, n_suspect + len(FIXED_SUSPECT), T_SINGLE, n_typed, 2 * len(INF_CASES), 2 * len(BOOL_NUMBER_CASES)),
@@ -532,6 +546,12 @@ def run(tier, seed):
         suspects.append(gen_random(rng, force_suspect=True))
     # typed-order universe (added after every older draw so that the older cases stay what they were for a given seed)
     for s in itertools.chain(gen_typed_small(), gen_fixed_classes(), (gen_typed(rng) for _ in range(n_typed))):
+        (suspects if s['suspect'] else batch).append(s)
+
+    # several same-named non-key columns (drawn after every older draw)
+    rng3 = random.Random(seed + 909)
+    for _ in range(120 if quick else 3000):
+        s = gen_more_shared(rng3)
         (suspects if s['suspect'] else batch).append(s)
 
     import concurrent.futures as cf
